@@ -270,7 +270,7 @@ def normalized_term(ctx, term):
         nz = Normalizer(ctx)
         p = nz.reduce(nz.from_z3(z3.simplify(term)))
         tot = None
-        for m, cf in p.d.items():
+        for m, cf in sorted(p.d.items(), key=lambda it: sorted(it[0])):
             t = core._rv(cf)
             for a, k in sorted(m):
                 base = nz.atoms[a]
